@@ -31,37 +31,44 @@ CONC_NOTE = ('Trusted: SQLite WAL snapshot isolation, BEGIN IMMEDIATE exclusion 
              'schedules: exhaustive up to 2 preemptions for 2-client programs (capped), PCT and random beyond. A trace that reaches a listed known finding is not judged beyond that event.')
 CHECKS.update({
  'C05': dict(level='model_checking', ref='DESIGN.md 3.5, 4.3, 6 (C05)',
-   text='Property-level monitor in TLA+ (MonitorTrace: environment state = committed contents, write lock, value files, calls in flight; StepRefinement against the CacheOps operators at each COMMIT; lock-free lookups explained by some contents committed during the call, with the one tolerated miss). '
+   text='Design level: CacheConc.tla models diskcache\'s own order of SQL statements and file operations (one action per statement; write lock, value files, Kill at any point, blocks, an independent lock holder) and TLC explores it exhaustively for pairs/triples of operations x value kinds (MCConc_pairs/triples/seq); each wrong ordering (select before BEGIN) is a config that must violate its invariant; TLC-generated client orders are replayed on the real code. '
+        'Property-level monitor in TLA+ (MonitorTrace: environment state = committed contents, write lock, value files, calls in flight; StepRefinement against the CacheOps operators at each COMMIT; lock-free lookups explained by some contents committed during the call, with the one tolerated miss). '
         'TLC validates every recorded execution of small concurrent programs run on real threads under a deterministic scheduler that enumerates interleavings of database statements and file operations.',
    technique='TLA+ linearizability/refinement monitor evaluated by TLC on scheduler-enumerated executions of the real code'),
  'C06': dict(level='model_checking', ref='DESIGN.md 3.5, 6 (C06)',
-   text='Transaction blocks in the same monitor: a block is a private working copy started when the lock is obtained, its calls are CacheOps steps on that copy, the one COMMIT of the outermost block must publish exactly that copy, ROLLBACK discards it; commits/rollbacks by inner calls or blocks, a second holder of the lock and foreign commits are rejected. '
+   text='Design level: CacheConc.tla models diskcache\'s own order of SQL statements and file operations (one action per statement; write lock, value files, Kill at any point, blocks, an independent lock holder) and TLC explores it exhaustively for pairs/triples of operations x value kinds (MCConc_tx/tx_kill); each wrong ordering (inner call removing files before the outer COMMIT, aborted block leaking its files) is a config that must violate its invariant; TLC-generated client orders are replayed on the real code. '
+        'Transaction blocks in the same monitor: a block is a private working copy started when the lock is obtained, its calls are CacheOps steps on that copy, the one COMMIT of the outermost block must publish exactly that copy, ROLLBACK discards it; commits/rollbacks by inner calls or blocks, a second holder of the lock and foreign commits are rejected. '
         'Programs: bodies of reads/writes/removals over inline and file values, nested blocks, a raise after every body position, concurrent readers/writers, a second thread on the same object; via Cache/Deque/Index.transact.',
    technique='TLA+ block-atomicity monitor evaluated by TLC on scheduler-enumerated executions'),
 })
 CHECKS['C08'] = dict(level='fault_enumeration', ref='DESIGN.md 3.5, 6 (C08)',
-   text='Single-fault enumeration on the real code: for every mutating method x initial contents the workload is re-run once per database statement / file operation with an OperationalError or OSError injected at exactly that point (plus unbindable tag, unencodable text, stream breaking mid-read); '
+   text='Design level: CacheConc.tla models diskcache\'s own order of SQL statements and file operations (one action per statement; write lock, value files, Kill at any point, blocks, an independent lock holder) and TLC explores it exhaustively for pairs/triples of operations x value kinds (MCConc_lock/pairs_kill); each wrong ordering (no cleanup after Timeout, aborted block leaking files) is a config that must violate its invariant; TLC-generated client orders are replayed on the real code. '
+        'Single-fault enumeration on the real code: for every mutating method x initial contents the workload is re-run once per database statement / file operation with an OperationalError or OSError injected at exactly that point (plus unbindable tag, unencodable text, stream breaking mid-read); '
         'every run, and a batch of concurrent and transactional schedules, is validated by TLC against the TLA+ monitor whose QuiescentAgreement clause compares counters, rows and value files whenever no call is in flight and at the end.',
    technique='fault enumeration at the SQLite/file boundary; every run validated by the TLA+ monitor (MonitorTrace) with TLC')
 CHECKS['C07'] = dict(level='fault_enumeration', ref='DESIGN.md 6 (C07)',
-   text='Kill-point enumeration on the real code: each workload (every mutating method, inline and file values, streams, bulk removals, expired-head loops, transaction blocks incl. nested, aborted and BaseException-aborted ones) runs in a forked child that SIGKILLs itself immediately before its n-th database statement / file operation, for every n; '
+   text='Design level: CacheConc.tla models diskcache\'s own order of SQL statements and file operations (one action per statement; write lock, value files, Kill at any point, blocks, an independent lock holder) and TLC explores it exhaustively for pairs/triples of operations x value kinds (MCConc_pairs_kill/tx_kill); each wrong ordering (file removed before COMMIT) is a config that must violate its invariant; TLC-generated client orders are replayed on the real code. '
+        'Kill-point enumeration on the real code: each workload (every mutating method, inline and file values, streams, bulk removals, expired-head loops, transaction blocks incl. nested, aborted and BaseException-aborted ones) runs in a forked child that SIGKILLs itself immediately before its n-th database statement / file operation, for every n; '
         'a fresh handle then observes the directory and TLC validates victim log + observation against KillTrace.tla (completed calls present, interrupted call all-or-nothing, present keys readable, writable, debris only unreferenced files / empty directories, repair converges). Thorough adds asynchronous SIGKILL at random delays.',
    technique='kill-point enumeration at the SQLite/file boundary; each run validated against the TLA+ crash-recovery spec (KillTrace) with TLC')
 CHECKS['C14'] = dict(level='model_checking', ref='DESIGN.md 6 (C14)',
-   text='TimeoutClean / RetryWaits / ShardedNeverRaises / LockFreeLookupsUnaffected clauses of the TLA+ monitor: a call may end in Timeout only after a failed attempt to obtain the lock, without retry requested, having committed nothing and leaving no value file (quiescent agreement); bulk removals report their count; sharded caches report through False/None/default. '
+   text='Design level: CacheConc.tla models diskcache\'s own order of SQL statements and file operations (one action per statement; write lock, value files, Kill at any point, blocks, an independent lock holder) and TLC explores it exhaustively for pairs/triples of operations x value kinds (MCConc_lock); each wrong ordering (no cleanup after Timeout) is a config that must violate its invariant; TLC-generated client orders are replayed on the real code. '
+        'TimeoutClean / RetryWaits / ShardedNeverRaises / LockFreeLookupsUnaffected clauses of the TLA+ monitor: a call may end in Timeout only after a failed attempt to obtain the lock, without retry requested, having committed nothing and leaving no value file (quiescent agreement); bulk removals report their count; sharded caches report through False/None/default. '
         'An independent raw SQLite connection holds the write lock under scheduler control (before the call, between the value-file write and BEGIN, released after 0/1/3 failed attempts) for every public data operation of Cache and FanoutCache, retry on/off, operator forms, settings that turn reads into writes; all schedules up to 2 preemptions are validated by TLC.',
    technique='TLA+ monitor evaluated by TLC on scheduler-enumerated executions with a scheduled lock-holder')
 CHECKS['C11'] = dict(level='model_checking', ref='DESIGN.md 3.3, 6 (C11)',
    text='DequeOps.tla is collections.deque as pure operators; DequeSeq.tla runs it in lock step with the cache operations as diskcache.Deque composes them (push+trim, pull, walk of sorted keys, rotate as pop/append steps, reverse as copy-clear-extend) and TLC checks the refinement Abs(cache)=deque and equal results for every operation over values {1,2}, maxlen {None,0,1,2}, <=3 items. '
         'Random histories (all methods, all index values, maxlen None/0/1/small, reopen/copy/pickle/maxlen assignment, via Deque / FanoutCache.deque / DjangoCache.deque) are validated by TLC against DequeOps; the same plans run through collections.deque itself validate the spec against the stdlib; producer/consumer programs are scheduler-enumerated and validated at each COMMIT.',
    technique='TLA+ refinement (composed cache ops -> pure deque) checked by TLC; trace validation incl. stdlib cross-check and scheduled concurrency')
-CHECKS['C12'] = dict(level='exploration', ref='DESIGN.md 3.3, 6 (C12)',
-   text='IndexOps.tla is an insertion-ordered dictionary as pure operators. Random histories over native and composite keys, inline and file values, all mapping methods, views in both directions, ordered/unordered equality, reopen/pickle (via Index / FanoutCache.index / DjangoCache.index) are validated by TLC against it, and the same plans through OrderedDict validate the spec; 2-3 client programs (lookup, replace inline<->file, setdefault, popitem, pop, delete) are scheduler-enumerated and validated at each COMMIT (PresentKeyAlwaysFound with the listed known finding).',
-   technique='trace validation by TLC against a TLA+ ordered-dictionary spec (sequential, stdlib cross-check, scheduled concurrency)')
-CHECKS['C13'] = dict(level='exploration', ref='DESIGN.md 3.4, 6 (C13)',
-   text='FanoutTrace.tla: N CacheOps states + the observed routing function; key-addressed calls are the CacheOps step on the routed shard, aggregates (len, clear, expire, evict, cull, stats, iteration both ways) are folds over all shards exactly once, the size limit is total/N. Random histories on 1/2/3/8/13 shards with the projection of every shard after every call are validated by TLC. '
+CHECKS['C12'] = dict(level='model_checking', ref='DESIGN.md 3.3, 6 (C12)',
+   text='IndexOps.tla is an insertion-ordered dictionary as pure operators; IndexSeq.tla runs it in lock step with the cache operations as diskcache.Index composes them (popitem = peekitem+delete in a block, setdefault = look up / add / look up, update = one assignment per pair, views = iteration + lookups) and TLC checks Abs(cache) = dictionary and equal results (3 keys, values {1,2}); '
+        'IndexConc.tla models concurrent clients at the granularity of transactions and value-file operations and TLC checks PresentKeyAlwaysFound, ValuesExplained, RefsComplete, NoLeak and termination; the released lookup (D_lookup_replace_race) must violate PresentKeyAlwaysFound with file-backed values (design-level reproduction of the known finding) and holds with inline values. Random histories over native and composite keys, inline and file values, all mapping methods, views in both directions, ordered/unordered equality, reopen/pickle (via Index / FanoutCache.index / DjangoCache.index) are validated by TLC against it, and the same plans through OrderedDict validate the spec; 2-3 client programs (lookup, replace inline<->file, setdefault, popitem, pop, delete) are scheduler-enumerated and validated at each COMMIT (PresentKeyAlwaysFound with the listed known finding).',
+   technique='TLA+ refinement (composed cache ops -> ordered dictionary) and a transaction-level concurrency model checked by TLC; trace validation (sequential, stdlib cross-check, scheduled concurrency)')
+CHECKS['C13'] = dict(level='model_checking', ref='DESIGN.md 3.4, 6 (C13)',
+   text='Design level: FanoutSeq.tla runs N shards plus a routing function chosen among ALL functions keys -> shards in lock step with one reference cache (set/add/touch/incr/get/contains/pop/delete routed; clear/expire/evict/len/stats/iteration folded over every shard once; expiry, tags, statistics) and TLC checks SameResults, UnionIsReference, Partition (2-3 keys x 2-3 shards); aggregates that skip a shard must fail. '
+        'FanoutTrace.tla: N CacheOps states + the observed routing function; key-addressed calls are the CacheOps step on the routed shard, aggregates (len, clear, expire, evict, cull, stats, iteration both ways) are folds over all shards exactly once, the size limit is total/N. Random histories on 1/2/3/8/13 shards with the projection of every shard after every call are validated by TLC. '
         'Routing: the shard of 62 keys (ints incl. 64-bit boundaries, floats, text, bytes, composite) is computed in fresh interpreters with different PYTHONHASHSEED values, compared with each other and with the table recorded from the released version (fixtures/routing.json); numerically equal int/float keys landing in different shards are the listed known finding.',
-   technique='trace validation by TLC against a TLA+ sharded-cache spec; routing tables compared across interpreters and with a recorded fixture')
+   technique='TLA+ lock-step refinement (shards + any routing -> one cache) checked by TLC; trace validation by TLC against the sharded-cache spec; routing tables compared across interpreters and with a recorded fixture')
 CHECKS['C19'] = dict(level='exploration', ref='DESIGN.md 3.4, 6 (C19)',
    text='DjangoTrace.tla states the contract on top of the CacheOps operators: made keys prefix:version:key, timeout mapping (DEFAULT -> backend TIMEOUT, None forever, 0/negative already expired), add/get/set/touch/delete/incr/decr(ValueError)/has_key/get_many/set_many/delete_many/get_or_set/incr_version/decr_version/pop/clear. '
         'Random call sequences under a virtual clock over keys x versions x timeout classes x backend TIMEOUT/KEY_PREFIX/VERSION/SHARDS are validated by TLC (return values); the same plans through Django\'s own LocMemCache validate the spec\'s reading of the contract (a disagreement there is a machinery failure, not a violation).',
@@ -70,10 +77,11 @@ CHECKS['C15'] = dict(level='model_checking', ref='DESIGN.md 3.6, 6 (C15)',
    text='Locks.tla models Lock (spin on atomic add / delete), RLock ((owner,count) read-modify-write in a transaction) and BoundedSemaphore at the granularity of atomic cache operations (justified by C05/C06); TLC checks MutualExclusion, SemBound, RLockOwner, FreeWhenNoHolder and, under fairness, that every contender completes its rounds (3 contenders x 2 rounds, nesting 2, value 2). '
         'The real recipes run on threads (shared / own Cache and FanoutCache objects) under the scheduler: all schedules up to 2 preemptions of 2-3 contender programs, PCT/random for 2-4 contenders, barrier, extra releases, and an RLock built before fork released by the child; witness events enter/exit are validated by TLC (LocksTrace.tla).',
    technique='TLA+ lock protocols model-checked by TLC (safety + liveness); scheduler-enumerated executions of the real recipes validated by TLC')
-CHECKS['C20'] = dict(level='exploration', ref='DESIGN.md 3.6, 6 (C20)',
-   text='RecipesTrace.tla: Averager state (total,count): the pair published by each COMMIT of add must be (total+v, count+1) of the pair committed just before, pop resets, get/pop return a pair committed during the call; throttle: RateBound over the recorded start history (for all i<j: j-i+1 <= count + count/seconds*(t_j-t_i)) and every call let through. '
+CHECKS['C20'] = dict(level='model_checking', ref='DESIGN.md 3.6, 6 (C20)',
+   text='Design level: Throttle.tla models throttle as a token bucket on an integer grid (Arrive, Try = one transaction: refill, cap, start or sleep; urgent Tick) and TLC checks RateBound, TallyBounded and, under fairness, EventuallyThrough for 2-3 callers x 2-3 calls x counts 2/3; without the cap it must fail. '
+        'RecipesTrace.tla: every recorded pass of the real loop must be a Throttle!Try step (pair read = pair stored last; start / capped start / sleep and the stored tally or the sleep follow from it); Averager state (total,count): the pair published by each COMMIT of add must be (total+v, count+1) of the pair committed just before, pop resets, get/pop return a pair committed during the call; throttle: RateBound over the recorded start history (for all i<j: j-i+1 <= count + count/seconds*(t_j-t_i)) and every call let through. '
         'Averager programs of 2-3 adders/poppers/readers are scheduler-enumerated (threads, shared/own Cache); throttle runs 1-3 callers over burst / idle-then-burst / steady / random arrival patterns under a virtual clock (time_func/sleep_func) with rates 1/1, 2/1, 3/2, 1/2; TLC validates every run.',
-   technique='trace validation by TLC: commit-level refinement for Averager, rate-bound formula over start histories for throttle')
+   technique='TLA+ token-bucket model checked by TLC (safety + liveness) and bound to the code step by step; commit-level refinement for Averager (trace validation by TLC)')
 CHECKS['C16'] = dict(level='model_checking', ref='DESIGN.md 3.6, 6 (C16)',
    text='Memo.tla transcribes args_to_key (released form behind the deviation D_none_separator, intended injective form otherwise) and TLC evaluates NoSharedEntry / SameCallSameKey over ALL ordered pairs of call signatures (arity <= 2 quick / 3 thorough, values None, \'a\', 1, 1.0, keyword subsets of {a,b}) x typed x ignore sets; the released form is shown to violate it (design-level reproduction of the known finding). '
         'Conformance: pairs of signatures (random, identical, and the confusable positional-tail/keyword shapes) are called through Cache/FanoutCache/Index/DjangoCache.memoize and memoize_stampede on a real variadic function; result, call counter and __cache_key__ equality are judged by TLC (MemoTrace.tla) with the model key; expiry scenarios (None, 0, positive) under a virtual clock and an early-recompute scenario for memoize_stampede.',
@@ -94,7 +102,7 @@ CHECKS['C18'] = dict(level='exploration', ref='DESIGN.md 3.7, 6 (C18)',
    text='Lifecycle events as no-ops of the reference model: random histories (as C03) with close / reopen with and without settings / pickle+unpickle / settings read-back at random points, and single operations performed by a forked child, a second thread or a fresh interpreter, are validated by TLC against CacheSeqTrace (every handle acts on the one CacheOps state; settings come back from the directory). '
         'Format stability: a reference directory written once by the pinned version (every key representation x value mode, Disk and JSONDisk with a custom disk setting, non-default settings, a 3-shard FanoutCache with Deque and Index, a Deque, an Index) is committed with the digests of everything readable from it; the current tree reads a scratch copy and TLC compares (FixtureTrace.tla); shard routing is compared with a recorded table in C13.',
    technique='trace validation by TLC with lifecycle events as model no-ops; golden reference directory compared as a trace')
-NOTES = {'C18': SEQ_NOTE + ' The format part is a golden-file comparison (the only way to see changes that orphan existing caches); Deque/Index lifecycle is in C11/C12.', 'C02': 'Exact numeric identities of the universe are computed with rational arithmetic by the harness (TLC integers are 32-bit). NaN is outside the key domain.', 'C01': 'Values INSIDE an abstract case are sampled, not enumerated; equality is structural with NaN = NaN and signed zero / exact type distinguished. The read-handle accessor is applied to binary values only; JSONDisk to JSON-representable values.', 'C17': 'Trusted: the observer (plain SQL + os.walk), TLC. Damage combinations beyond pairs are sampled.', 'C16': SEQ_NOTE, 'C20': CONC_NOTE + ' Start times are rounded outwards to 1/4000 s (sound for the bound); a virtual sleep advances time by at least 1e-6 s.', 'C15': CONC_NOTE + ' Contenders in separate processes only in the fork scenario.', 'C19': SEQ_NOTE + ' Return values the contract leaves open (set, delete_many, clear, delete of an expired item) are not compared.', 'C13': SEQ_NOTE + ' Aggregate operations under lock timeouts (FanoutCache._remove resuming after Timeout) are only covered with one shard (C14).', 'C11': CONC_NOTE, 'C12': CONC_NOTE + ' No exhaustive TLC exploration of the Index composition yet (level exploration).', 'C14': CONC_NOTE, 'C07': 'Trusted: SQLite atomic commit / WAL recovery and release of the write lock on process death; kill points are the boundary events of the victim (before each statement, file create/write/close/remove, directory create/remove); the lazy cull of writes is switched off in kill workloads (not observable per call). Deque/Index workloads are killed in C11/C12.', 'C08': CONC_NOTE + ' Faults are not injected into COMMIT/ROLLBACK (SQLite atomic commit trusted) nor into file removal (removing an existing file is assumed to succeed).', 'C05': CONC_NOTE, 'C06': CONC_NOTE, 'C03': SEQ_NOTE, 'C04': SEQ_NOTE, 'C09': SEQ_NOTE, 'C10': SEQ_NOTE}
+NOTES = {'C18': SEQ_NOTE + ' The format part is a golden-file comparison (the only way to see changes that orphan existing caches); Deque/Index lifecycle is in C11/C12.', 'C02': 'Exact numeric identities of the universe are computed with rational arithmetic by the harness (TLC integers are 32-bit). NaN is outside the key domain.', 'C01': 'Values INSIDE an abstract case are sampled, not enumerated; equality is structural with NaN = NaN and signed zero / exact type distinguished. The read-handle accessor is applied to binary values only; JSONDisk to JSON-representable values.', 'C17': 'Trusted: the observer (plain SQL + os.walk), TLC. Damage combinations beyond pairs are sampled.', 'C16': SEQ_NOTE, 'C20': CONC_NOTE + ' The Averager half has no exhaustive design model of its own (its atomicity is C06). Start times are rounded outwards to 1/4000 s (sound for the bound); a virtual sleep advances time by at least 1e-6 s.', 'C15': CONC_NOTE + ' Contenders in separate processes only in the fork scenario.', 'C19': SEQ_NOTE + ' Return values the contract leaves open (set, delete_many, clear, delete of an expired item) are not compared.', 'C13': SEQ_NOTE + ' Aggregate operations under lock timeouts (FanoutCache._remove resuming after Timeout) are only covered with one shard (C14).', 'C11': CONC_NOTE, 'C12': CONC_NOTE + '', 'C14': CONC_NOTE, 'C07': 'Trusted: SQLite atomic commit / WAL recovery and release of the write lock on process death; kill points are the boundary events of the victim (before each statement, file create/write/close/remove, directory create/remove); the lazy cull of writes is switched off in kill workloads (not observable per call). Deque/Index workloads are killed in C11/C12.', 'C08': CONC_NOTE + ' Faults are not injected into COMMIT/ROLLBACK (SQLite atomic commit trusted) nor into file removal (removing an existing file is assumed to succeed).', 'C05': CONC_NOTE, 'C06': CONC_NOTE, 'C03': SEQ_NOTE, 'C04': SEQ_NOTE, 'C09': SEQ_NOTE, 'C10': SEQ_NOTE}
 
 checks = []
 for pid, c in sorted(CHECKS.items()):
